@@ -181,6 +181,89 @@ def gen_seq(rng, tier):
     return case
 
 
+def gen_sched(rng, tier):
+    """small sequences aimed at the scheduler's separation of pulses at the
+    output: modulated channels (with and without EOM, custom phase jump
+    times), the same channel declared twice (reusable device) or two
+    channels sharing targets, phase changes, min-delay / wait-for-all."""
+    def chan(i, kind, bw, eom, cpjt):
+        c = dict(id=f"ch{i}", kind=kind, addressing="Global", clock_period=rng.choice([1, 1, 4]),
+                 min_duration=rng.choice([1, 4, 16]), max_duration=10**8, mod_bandwidth=bw,
+                 custom_phase_jump_time=cpjt, max_amp=None, max_abs_detuning=None, min_avg_amp=0)
+        if eom is not None:
+            c["eom"] = dict(mod_bandwidth=eom, custom_buffer_time=rng.choice([None, None, 37, 240]),
+                            limiting_beam="RED", controlled_beams=["BLUE"], multiple_beam_control=True)
+        return c
+
+    bws = [4.0, 8.0, 8.0, 20.0, 40.0, 2.5]
+    chans = [chan(0, "Rydberg", rng.choice(bws), rng.choice([None, 40.0, 24.0, 60.0, 40.0]),
+                  rng.choice([None, 0, 0, 0, 7, 16, 40, 100]))]
+    if rng.random() < 0.7:
+        chans.append(chan(1, rng.choice(["Raman", "Rydberg", "Raman"]), rng.choice(bws + [None, None]),
+                          None, rng.choice([None, 0, 16])))
+        if chans[1]["kind"] == "Rydberg" and chans[1]["mod_bandwidth"] and rng.random() < 0.6:
+            chans[1]["eom"] = dict(mod_bandwidth=rng.choice([40.0, 24.0]), custom_buffer_time=None,
+                                   limiting_beam="RED", controlled_beams=["BLUE"], multiple_beam_control=True)
+    dev = dict(channels=chans, dmms=[], max_sequence_duration=None, reusable=True, slm=False)
+    n = rng.choice([1, 2, 3])
+    reg = dict(ids=[f"q{i}" for i in range(n)], coords=[[10.0 * i, 0.0] for i in range(n)])
+    names = []
+    ops = []
+    for k in range(rng.choice([2, 2, 3])):
+        cid = rng.choice(chans)["id"]
+        nm = "abcd"[k]
+        names.append((nm, next(c for c in chans if c["id"] == cid)))
+        ops.append(dict(op="declare", name=nm, channel_id=cid))
+    in_eom = {nm: False for nm, _ in names}
+    if len(names) >= 2 and rng.random() < 0.65:
+        # both timelines start at 0: a pulse on the first channel, the second
+        # one busy a little longer on the same atoms, then a pulse with a new
+        # phase on the first: the cross-channel wait is shorter than the fall
+        (na, sa), (nb, sb) = names[0], names[1]
+        ca, cb = sa["clock_period"], sb["clock_period"]
+        da = ca * rng.randint(max(4, -(-sa["min_duration"] // ca)), 80)
+        x = rng.choice([4, 8, 16, 24, 40, 60, 100, 200])
+        db = cb * -(-(da + x) // cb)
+        mk = lambda d, v, ph: dict(amp=dict(k="const", d=d, v=v), det=dict(k="const", d=d, v=0.0), phase=ph, post=0.0)
+        ops.append(dict(op="add", channel=na, protocol=0, pulse=mk(da, rng.choice([2.0, 5.0, 20.0]), 0.0)))
+        ops.append(dict(op="add", channel=nb, protocol=1, pulse=mk(db, 1.0, 0.0)))
+        ops.append(dict(op="add", channel=na, protocol=rng.choice([0, 0, 2]),
+                        pulse=mk(da, rng.choice([2.0, 5.0]), rng.choice([math.pi / 2, 1.0, 0.0]))))
+
+    def dur(spec):
+        c = spec["clock_period"]
+        return c * rng.randint(max(1, -(-spec["min_duration"] // c)), 90)
+
+    for _ in range(rng.randint(3, 10) if tier == "quick" else rng.randint(3, 20)):
+        nm, spec = rng.choice(names)
+        r = rng.random()
+        proto = rng.choice([0, 0, 0, 2, 1])
+        phase = rng.choice([0.0, 0.0, math.pi / 2, 1.0, math.pi])
+        if spec.get("eom") is not None and r < 0.2:
+            if in_eom[nm]:
+                ops.append(dict(op="disable_eom", channel=nm))
+            else:
+                ops.append(dict(op="enable_eom", channel=nm, amp_on=rng.choice([1.0, 2.0, 5.0]), det_on=0.0,
+                                opt_off=0.0))
+            in_eom[nm] = not in_eom[nm]
+        elif r < 0.3:
+            spec_c = spec["clock_period"]
+            ops.append(dict(op="delay", channel=nm, duration=spec_c * rng.randint(max(1, -(-spec["min_duration"] // spec_c)), 40)))
+        elif in_eom[nm]:
+            ops.append(dict(op="add_eom", channel=nm, duration=dur(spec), phase=phase, protocol=proto))
+        else:
+            d = dur(spec)
+            amp = rng.choice([dict(k="const", d=d, v=rng.choice([1.0, 2.0, 5.0, 20.0])),
+                              dict(k="const", d=d, v=rng.choice([1.0, 5.0])),
+                              dict(k="ramp", d=max(d, 2), a=0.0, b=rng.choice([2.0, 8.0]))])
+            d = wf_dur(amp)
+            ops.append(dict(op="add", channel=nm, protocol=proto,
+                            pulse=dict(amp=amp, det=dict(k="const", d=d, v=rng.choice([0.0, 0.0, -3.0])),
+                                       phase=phase, post=0.0)))
+    return dict(kind="seq", device=dev, register=reg, maps=[], ops=ops)
+
+
+
 # ------------------------------------------------------------------ runners
 def run_mod(case):
     viols = []
@@ -344,15 +427,111 @@ def chan_info(cs):
     return dict(bw=None if ch.mod_bandwidth is None else float(ch.mod_bandwidth), eom=eom)
 
 
+def _amp_of(slot):
+    return L.arr(slot.type.amplitude.samples)
+
+
+def _pulse_tail_at(cs, q, t_start):
+    """max |modulated amplitude| of the isolated pulse slot q of channel
+    schedule cs from sequence time t_start on (sampler convention: output
+    index j of the modulated pulse sits at time q.ti + j), the threshold of
+    the property and the fall time accounted for q in the mode it was played"""
+    ch = cs.channel_obj
+    in_eom = bool(cs.in_eom_mode(time_slot=q))
+    bw = ch.eom_config.mod_bandwidth if in_eom else ch.mod_bandwidth
+    tr = int(ch.eom_config.rise_time) if in_eom else int(ch.rise_time)
+    fall = int(q.type.fall_time(ch, in_eom_mode=in_eom))
+    x = _amp_of(q)
+    thr = L.tail_threshold(x)
+    if t_start >= q.tf + fall or not bw or not np.all(np.isfinite(x)) or not np.any(x):
+        return 0.0, thr, fall
+    e = max(t_start - q.tf - tr, -len(x))
+    return L.isolated_tail(ch, x, bw, tr, e), thr, fall
+
+
+def overlap_oracle(seq, op, case, upto):
+    """'pulses separated by the scheduler do not overlap at the output':
+    called right after a successful add / add_eom_pulse / add_dmm_detuning
+    with a protocol other than 'no-delay'.  P = the pulse just scheduled.
+    (a) every other channel's last non-zero pulse that shares a target with P
+        (any pulse for 'wait-for-all') has decayed below max(0.01, 0.6% peak)
+        at the output when P starts;
+    (b) when P changes the phase with respect to the previous pulse of its own
+        channel, that pulse has decayed at the output when P starts."""
+    out = []
+    name = op.get("channel")
+    sched = seq._schedule
+    if name not in sched:
+        return out
+    cs = sched[name]
+    slots = list(cs.slots)
+    if not slots or not isinstance(slots[-1].type, Pulse):
+        return out
+    p = slots[-1]
+    if p.tf - p.ti != p.type.duration:
+        return out
+    proto = op.get("protocol", 0)
+    sub = dict(case, ops=case["ops"][: upto + 1])
+    for other, ocs in sched.items():
+        if other == name or not ocs.channel_obj.mod_bandwidth:
+            continue
+        q = None
+        for sl in reversed(list(ocs.slots)):
+            if isinstance(sl.type, Pulse) and np.any(_amp_of(sl)):
+                q = sl
+                break
+        if q is None or q.ti >= p.ti:
+            continue
+        if not (proto == 2 or (set(q.targets) & set(p.targets))):
+            continue
+        tail, thr, fall = _pulse_tail_at(ocs, q, p.ti)
+        if tail > thr * (1 + 1e-9):
+            ch = ocs.channel_obj
+            slow = (ch.supports_eom() and ch.eom_config.rise_time > ch.rise_time
+                    and bool(ocs.in_eom_mode(time_slot=q)))
+            out.append(Violation(
+                "overlap:cross-channel" + (":eom-slower-than-channel" if slow else ""),
+                f"pulse on {name!r} starts at {p.ti} while the output of the pulse [{q.ti},{q.tf}] on {other!r} "
+                f"(shared targets, accounted fall time {fall}) is still {tail:g} > {thr:g}", sub))
+    if not op.get("correct", False) and cs.channel_obj.mod_bandwidth:
+        prev = None
+        for sl in reversed(slots[:-1]):
+            if isinstance(sl.type, Pulse) and not cs.is_detuned_delay(sl.type):
+                prev = sl
+                break
+        if prev is not None:
+            dphi = (float(p.type.phase) - float(prev.type.phase)) % (2 * math.pi)
+            if 1e-6 < dphi < 2 * math.pi - 1e-6:
+                tail, thr, fall = _pulse_tail_at(cs, prev, p.ti)
+                if tail > thr * (1 + 1e-9):
+                    ch = cs.channel_obj
+                    slow = (ch.supports_eom() and ch.eom_config.rise_time > ch.rise_time
+                            and bool(cs.in_eom_mode(time_slot=prev)))
+                    out.append(Violation(
+                        "overlap:phase-jump" + (":eom-slower-than-channel" if slow else ""),
+                        f"pulse with a new phase on {name!r} starts at {p.ti} while the output of the previous pulse "
+                        f"[{prev.ti},{prev.tf}] (accounted fall time {fall}, phase jump time "
+                        f"{cs.channel_obj.phase_jump_time}) is still {tail:g} > {thr:g}", sub))
+    return out
+
+
+
 def run_seq(case):
     viols = []
 
     def bad(sig, what, detail=None):
         viols.append(Violation(sig, what, case, detail))
 
-    r = seqimpl.run_case(case)
+    n_sep = [0]
+
+    def hook(i, op, seq_, out, exc):
+        if exc is None and op["op"] in ("add", "add_eom", "add_dmm") and op.get("protocol", 0 if op["op"] != "add_dmm" else 1) in (0, 2):
+            n_sep[0] += 1
+            viols.extend(overlap_oracle(seq_, op, case, i))
+
+    r = seqimpl.run_case(case, hook)
     seq = r["seq"]
-    run = dict(outcomes=[t[0][0] for t in r["trace"][:-1]], chans=[], plain=None, whole=None)
+    run = dict(outcomes=[t[0][0] for t in r["trace"][:-1]], chans=[], plain=None, whole=None, separated=n_sep[0])
     if seq.is_parametrized():
         run["plain"] = "parametrized"
         return run, viols
@@ -546,9 +725,11 @@ class C14(PropCheck):
         r = rng.random()
         if r < 0.36:
             return gen_mod(rng, tier)
-        if r < 0.66:
+        if r < 0.62:
             return gen_wf(rng, tier)
-        return gen_seq(rng, tier)
+        if r < 0.82:
+            return gen_seq(rng, tier)
+        return gen_sched(rng, tier)
 
     def run_impl(self, case):
         k = case["kind"]
@@ -647,6 +828,7 @@ class C14(PropCheck):
         elif k == "seq":
             b = acc.setdefault("seq", {})
             b["plain_" + str(run["plain"])] = b.get("plain_" + str(run["plain"]), 0) + 1
+            b["pulses_separated_by_scheduler"] = b.get("pulses_separated_by_scheduler", 0) + run.get("separated", 0)
             for c in run.get("chans", []):
                 key = "chan_ok" if c["out"][0] == 0 else f"chan_err{c['out'][0]}"
                 b[key] = b.get(key, 0) + 1
